@@ -322,6 +322,99 @@ def get_instruction_any_unit(res):
     return res
 
 
+def operand_to_class_unit(res):
+    """P: MachineModel.operand_to_class (the loader's conversion of one operand pattern): for every operand class and every
+    subset of the optional keys, the constructed operand carries exactly the values written in the file (the very objects; register
+    prefix / shape lower-cased, condition code upper-cased), absent flags default to False, absent names to None; an operand of
+    an unknown class is kept as it is.  This is the link between 'patterns as written' (loader fidelity, bounded) and the matcher
+    contracts above."""
+    import itertools
+    ex = Engine([REPO + "/" + f for f in OPF + [HW]])
+    ex.no_init.add("MachineModel")
+    tok = lambda nm: Opaque(nm)
+    cases = []
+    opt_reg = ["name", "prefix", "shape", "mask", "pre_indexed", "post_indexed", "source", "destination"]
+    for present in itertools.chain.from_iterable(itertools.combinations(opt_reg, r) for r in (0, 1, 2, 8)):
+        cases.append(("register", set(present)))
+    for present in itertools.chain.from_iterable(itertools.combinations(["source", "destination", "pre_indexed", "post_indexed"], r) for r in range(5)):
+        for basekind, indexkind in (("str", "str"), ("dict", "dict"), ("none", "none"), ("dict", "dictprefix")):
+            cases.append(("memory", set(present) | {"b:" + basekind, "i:" + indexkind}))
+    for cls_, keys in (("immediate", ["source", "destination"]), ("identifier", ["name", "source", "destination"]), ("condition", ["source", "destination"]),
+                       ("flag", ["source", "destination"]), ("prfop", ["type", "target", "policy"])):
+        for present in itertools.chain.from_iterable(itertools.combinations(keys, r) for r in range(len(keys) + 1)):
+            cases.append((cls_, set(present)))
+    cases.append(("somethingelse", set()))
+    for cls_, present in cases:
+        def run(cls_=cls_, present=present):
+            o = {"class": cls_}
+            vals = {}
+            for k in present:
+                if ":" in k:
+                    continue
+                vals[k] = ("Xx" if k in ("prefix", "shape") else "*" if k in ("pre_indexed", "post_indexed") else tok(k))  # '*': the files' wildcard
+                o[k] = vals[k]
+            if cls_ == "memory":
+                bk, ik = [k[2:] for k in sorted(present) if k.startswith("b:")][0], [k[2:] for k in sorted(present) if k.startswith("i:")][0]
+                vals["base"] = {"str": "gpr", "none": None, "dict": {"name": "rsp"}}[bk]
+                vals["index"] = {"str": "gpr", "none": None, "dict": {"name": "rcx"}, "dictprefix": {"name": "3", "prefix": "w"}}[ik]
+                vals["offset"], vals["scale"] = tok("offset"), tok("scale")
+                o.update(base=vals["base"], index=vals["index"], offset=vals["offset"], scale=vals["scale"])
+            if cls_ == "immediate":
+                vals["imd"] = o["imd"] = tok("imd")
+            if cls_ == "condition":
+                vals["ccode"] = o["ccode"] = "ne"
+            if cls_ == "flag":
+                vals["name"] = o["name"] = tok("flagname")
+            out = []
+            ex.call_method("MachineModel", "operand_to_class", SObj("MachineModel"), [o, out])
+            ex.extra.update(vals=vals, o=o)
+            return out
+
+        paths = ex.explore(run, [])
+
+        def post(v, p, cls_=cls_, present=present):
+            vals, o = p.extra["vals"], p.extra["o"]
+            if not (isinstance(v, list) and len(v) == 1):
+                return False
+            x = v[0]
+            if cls_ == "somethingelse":
+                return x is o
+            want_cls = {"register": "RegisterOperand", "memory": "MemoryOperand", "immediate": "ImmediateOperand", "identifier": "IdentifierOperand",
+                        "condition": "ConditionOperand", "flag": "FlagOperand", "prfop": "PrefetchOperand"}[cls_]
+            if not (isinstance(x, SObj) and x.cls == want_cls):
+                return False
+            f = x.fields
+            same = lambda got, k, dflt: (got is vals[k]) if k in vals else (got is dflt or got == dflt)
+            g = []
+            if cls_ != "prfop":
+                g += [same(f.get("_source"), "source", False), same(f.get("_destination"), "destination", False)]
+            if cls_ == "register":
+                g += [same(f.get("_name"), "name", None), f.get("_prefix") == ("xx" if "prefix" in present else None), f.get("_shape") == ("xx" if "shape" in present else None),
+                      same(f.get("_mask"), "mask", False), same(f.get("_pre_indexed"), "pre_indexed", False), same(f.get("_post_indexed"), "post_indexed", False)]
+            if cls_ == "memory":
+                g += [f.get("_offset") is vals["offset"], f.get("_scale") is vals["scale"], same(f.get("_pre_indexed"), "pre_indexed", False), same(f.get("_post_indexed"), "post_indexed", False)]
+                for part in ("base", "index"):
+                    w, got = vals[part], f.get("_" + part)
+                    if isinstance(w, dict):
+                        g.append(isinstance(got, SObj) and got.cls == "RegisterOperand" and got.fields.get("_name") == w["name"] and got.fields.get("_prefix") == (w.get("prefix") if part == "index" else None))
+                    else:
+                        g.append(got is w or got == w)
+            if cls_ == "immediate":
+                g.append(f.get("_imd_type") is vals["imd"])
+            if cls_ == "identifier":
+                g.append(same(f.get("_name"), "name", None))
+            if cls_ == "condition":
+                g.append(f.get("_ccode") == "NE")
+            if cls_ == "flag":
+                g.append(f.get("_name") is vals["name"])
+            if cls_ == "prfop":
+                g += [same(f.get("_type_id"), "type", None), same(f.get("_target"), "target", None), same(f.get("_policy"), "policy", None)]
+            return all(bool(b) for b in g)
+
+        res.add_paths(paths, post, kind=f"{cls_}/{'+'.join(sorted(present)) or 'minimal'}")
+    return res
+
+
 def units(tier):
     us = [Unit("C07/x86/_check_operands/registers-and-kinds", x86_unit_regs, "P",
                [(HW, "MachineModel._check_operands"), (HW, "MachineModel._check_x86_operands"), (HW, "MachineModel._is_x86_reg_type"), (PX, "ParserX86ATT.is_vector_register")], timeout=1500)]
@@ -344,6 +437,7 @@ def units(tier):
         Unit("C07/suffix-fall-backs/assign_src_dst/aarch64", roles_unit("aarch64"), "Pb", [(ISAF, "ISASemantics.assign_src_dst")], timeout=1500),
         Unit("C07/suffix-fall-backs/assign_tp_lt/x86", compose_unit("x86"), "Pb", [("osaca/semantics/arch_semantics.py", "ArchSemantics.assign_tp_lt")], timeout=1500),
         Unit("C07/suffix-fall-backs/assign_tp_lt/aarch64", compose_unit("aarch64"), "Pb", [("osaca/semantics/arch_semantics.py", "ArchSemantics.assign_tp_lt")], timeout=1500),
+        Unit("C07/operand_to_class(loader: patterns as written)", operand_to_class_unit, "P", [(HW, "MachineModel.operand_to_class")]),
         Unit("C07/_match_operands", match_operands_unit, "P", [(HW, "MachineModel._match_operands")]),
         Unit("C07/get_instruction", get_instruction_unit, "Pb", [(HW, "MachineModel.get_instruction")]),
         Unit("C07/get_instruction(any number of entries)", get_instruction_any_unit, "P", [(HW, "MachineModel.get_instruction")]),
